@@ -129,6 +129,28 @@ def shape_scenarios(seed):
         steps=[con, {"a": "burst", "t": 40, "o": 1, "reqs": [R(1, dial=False, rdelay=100), R(2, dial=False, rdelay=100)]},
                {"a": "freeze", "t": 20, "from": 1, "to": 2}, {"a": "thaw", "t": 900, "from": 1, "to": 2},
                {"a": "burst", "t": 50, "o": 1, "reqs": [R(3)]}])
+    # the remote accepts the connection and its streams but its litep2p tasks are not scheduled any more
+    # (works on every transport): substream-open timeout, silence during the response, recovery
+    add("frozen-node-substream-open-timeout",
+        steps=[con, {"a": "freeze_node", "t": 40, "o": 2}, {"a": "burst", "t": 10, "o": 1, "reqs": [R(1, dial=False), R(2)]},
+               {"a": "cancel", "t": 100, "o": 1, "k": 2}, {"a": "sleep", "t": 1400}])
+    add("frozen-node-then-thawed", timeout_ms=300,
+        steps=[con, {"a": "burst", "t": 40, "o": 1, "reqs": [R(1, dial=False, rdelay=150), R(2, dial=False, rdelay=150)]},
+               {"a": "freeze_node", "t": 30, "o": 2}, {"a": "thaw_node", "t": 1500, "o": 2},
+               {"a": "burst", "t": 100, "o": 1, "reqs": [R(3)]}])
+    # the open must be concluded by the substream-open timeout itself: the connection outlives it (long
+    # keep-alive, remote scheduled again afterwards), so no ConnectionClosed can stand in for the missing outcome
+    # (QUIC drops a connection that is idle for connection_open_timeout, hence the long one; every request goes
+    # to a connected peer, so one request is bounded by substream-open timeout + 2 x request timeout; the verdict
+    # falls before the 10 s default idle timeout of the QUIC listener side ends the connection)
+    add("frozen-node-open-timeout-connection-survives", keep_alive_ms=60000, conn_ms=20000, bound_ms=2000,
+        steps=[con, {"a": "freeze_node", "t": 40, "o": 2}, {"a": "burst", "t": 10, "o": 1, "reqs": [R(1, dial=False), R(2)]},
+               {"a": "thaw_node", "t": 1600, "o": 2}, {"a": "burst", "t": 200, "o": 1, "reqs": [R(3, dial=False)]}])
+    add("frozen-node-dial", steps=[{"a": "freeze_node", "o": 2}, {"a": "burst", "t": 10, "o": 1, "reqs": [R(1), R(2)]},
+                                   {"a": "sleep", "t": 2400}])
+    add("killed-while-stalling", steps=[con, {"a": "burst", "t": 40, "o": 1, "reqs": [R(1, dial=False, pol="stall"), R(2, dial=False, rdelay=300)]},
+                                        {"a": "kill", "t": 100, "o": 2}])
+    add("killed-while-dialing", steps=[{"a": "burst", "o": 1, "reqs": [R(1), R(2)]}, {"a": "kill", "t": 1, "o": 2}])
     # short keep-alive: the connection is closed under the protocol's feet, later requests redial
     add("keepalive-redial", keep_alive_ms=200,
         steps=[{"a": "burst", "o": 1, "reqs": [R(1)]}, {"a": "burst", "t": 700, "o": 1, "reqs": [R(2)]},
@@ -140,15 +162,15 @@ def shape_scenarios(seed):
 
 # ----------------------------------------------------------------------------- seeded random scripts
 
-def random_bound_scenario(sid, rnd):
+def random_bound_scenario(sid, rnd, tr="tcp"):
     """several requesters against one responder with a small bound whose user sits on its answers"""
     nreq = rnd.choice([2, 3, 3])
     bound = rnd.choice([1, 1, 2])
     resp = nreq + 1
     timeout = rnd.choice([600, 800, 1000])
     nodes = [{} for _ in range(nreq)] + [{"maxc": bound}]
-    delayed = rnd.random() < 0.5
-    links = [L(i, resp, "proxy" if (delayed and i == 1) or rnd.random() < 0.2 else "direct") for i in range(1, nreq + 1)]
+    delayed = rnd.random() < 0.5 and tr != "quic"
+    links = [L(i, resp, "proxy" if (delayed and i == 1) or (rnd.random() < 0.2 and tr != "quic") else "direct") for i in range(1, nreq + 1)]
     steps = [{"a": "connect", "from": i, "to": resp} for i in range(1, nreq + 1)]
     order = list(range(1, nreq + 1))
     if not delayed:
@@ -172,14 +194,15 @@ def random_bound_scenario(sid, rnd):
         first = False
     if delayed:
         steps.append({"a": "thaw", "t": rnd.choice([80, 150, 250]), "from": 1, "to": resp})
-    return dict(id=sid, seed=rnd.randrange(1 << 30), src="rand-bound", timeout_ms=timeout, conn_ms=1000, sub_ms=1000, max_size=4096,
+    return dict(id=sid, seed=rnd.randrange(1 << 30), src="rand-bound", transport=tr, timeout_ms=timeout, conn_ms=1000, sub_ms=1000, max_size=4096,
                 perturb=rnd.choice([0, 1, 2, 3]), nodes=nodes, links=links, steps=steps,
                 epilogue=rnd.choice(["", "kill"]), linger_ms=150)
 
 
-def random_scenario(sid, rnd):
+def random_scenario(sid, rnd, tr="tcp"):
+    quic = tr == "quic"
     if rnd.random() < 0.12:
-        return random_bound_scenario(sid, rnd)
+        return random_bound_scenario(sid, rnd, tr)
     timeout = rnd.choice([300, 400, 500, 800, 1000])
     max_size = rnd.choice([256, 1024, 1024, 4096, 70000])
     nresp = rnd.choice([1, 1, 2])
@@ -200,12 +223,14 @@ def random_scenario(sid, rnd):
             links.append(L(1, p, "closed"))
             continue
         via = rnd.choice(["direct", "direct", "proxy", "proxy", "proxy", "closed", "blackhole"])
+        if quic and via == "proxy":
+            via = "direct"
         lk = L(1, p, via)
         if via == "proxy" and rnd.random() < 0.15:
             lk["cut0_dir"] = rnd.choice(["up", "down"])
             lk["cut0_after"] = rnd.choice([1, 30, 100, 250, 500, 1000, 1500])
         links.append(lk)
-        links.append(L(p, 1, rnd.choice(["direct", "proxy"])))
+        links.append(L(p, 1, "direct" if quic else rnd.choice(["direct", "proxy"])))
     steps = []
     for lk in list(links):
         if lk["from"] == 1 and lk["via"] in ("direct", "proxy") and "cut0_dir" not in lk and rnd.random() < 0.5:
@@ -235,6 +260,8 @@ def random_scenario(sid, rnd):
                     size = 64
                 tiny_used.add((o, to, size))
             pol = rnd.choice(["answer"] * 6 + ["reject", "stall", "stall", "kill", "cut", "cut", "cutnow"])
+            if quic and pol in ("cut", "cutnow"):
+                pol = rnd.choice(["kill", "stall", "reject"])
             r = R(k, to=to, size=size, dial=rnd.random() < 0.7, pol=pol,
                   rsize=rnd.choice([0, 1, 8, 32, 300, max_size, max_size + 1]),
                   rdelay=rnd.choice([0, 0, 0, 0, 5, 20, timeout // 2, int(timeout * 1.6)]))
@@ -263,20 +290,54 @@ def random_scenario(sid, rnd):
                 steps.append({"a": "cancel", "t": rnd.choice([0, 0, 1, 5, 20, 100, timeout // 2, timeout + 50]), "o": oo, "k": kk})
         if rnd.random() < 0.08 and len(real) > 1:
             steps.append({"a": "kill", "t": gap(), "o": rnd.choice(real[1:])})
-    return dict(id=sid, seed=rnd.randrange(1 << 30), src="rand", timeout_ms=timeout, conn_ms=rnd.choice([800, 1500]),
-                sub_ms=rnd.choice([800, 1500]), max_size=max_size, keep_alive_ms=rnd.choice([5000, 5000, 5000, 250]),
+        if rnd.random() < 0.08 and len(real) > 1:
+            fz = rnd.choice(real[1:])
+            steps.append({"a": "freeze_node", "t": gap(), "o": fz})
+            if rnd.random() < 0.6:
+                steps.append({"a": "thaw_node", "t": rnd.choice([100, timeout + 100, 2 * timeout + 900, 1800]), "o": fz})
+    return dict(id=sid, seed=rnd.randrange(1 << 30), src="rand", transport=tr, timeout_ms=timeout, conn_ms=rnd.choice([800, 1500]),
+                sub_ms=rnd.choice([800, 1500]), max_size=max_size, keep_alive_ms=rnd.choice([5000, 5000, 60000, 60000, 250]),
                 perturb=rnd.choice([0, 1, 2, 2, 3]), nodes=nodes, links=links, steps=steps,
                 epilogue=rnd.choice(["", "kill", "kill", "cut"]), linger_ms=rnd.choice([150, 150, 300, 2 * timeout + 200]))
 
 
-def random_scenarios(seed, n, first_id=200000):
-    rnd = random.Random(seed)
-    return [random_scenario(first_id + i, rnd) for i in range(n)]
+def random_scenarios(seed, n, first_id=200000, tr="tcp"):
+    rnd = random.Random(seed * 7 + {"tcp": 0, "ws": 1, "quic": 2}[tr])
+    return [random_scenario(first_id + i, rnd, tr) for i in range(n)]
+
+
+# ----------------------------------------------------------------------------- transports
+
+TR_OFFSET = {"tcp": 0, "ws": 1000000, "quic": 2000000}
+
+
+def needs_proxy(sc):
+    """does the script depend on the byte proxy (cut / freeze at byte offsets)?"""
+    if any(st["a"] in ("cut", "freeze", "thaw") for st in sc["steps"]):
+        return True
+    if any("cut0_dir" in l for l in sc["links"]):
+        return True
+    return any(q.get("pol") in ("cut", "cutnow") for st in sc["steps"] for q in st.get("reqs", []))
+
+
+def on_transport(scs, tr):
+    """The same scripts on another transport.  ws is TCP underneath, the byte proxy keeps working.  QUIC runs
+    over UDP: scripts that need the proxy are not run there (returned by name), proxied links become direct."""
+    out, skipped = [], []
+    for sc in scs:
+        if tr == "quic" and needs_proxy(sc):
+            skipped.append(sc["src"])
+            continue
+        c = json.loads(json.dumps(sc))
+        c["transport"] = tr
+        c["id"] = sc["id"] + TR_OFFSET[tr]
+        out.append(c)
+    return out, sorted(set(skipped))
 
 
 # ----------------------------------------------------------------------------- TLC behaviours -> scripts
 
-def from_hist(h, rnd, sid):
+def from_hist(h, rnd, sid, tr="tcp"):
     """Turn the stimulus history of one behaviour of ReqRespMC (user commands, responder behaviours,
     connection faults) into a script for real nodes.  Only the order of user-level steps can be
     imposed on a real network; the responder behaviours travel inside the requests."""
@@ -295,11 +356,11 @@ def from_hist(h, rnd, sid):
     nodes = [{}] + [{"maxc": 1} for _ in range(nnodes - 1)]
     links = []
     for p in range(2, nnodes + 1):
-        links.append(L(1, p, "closed" if first.get(p) == "dialfail" else "proxy"))
-        links.append(L(p, 1, "proxy"))
+        links.append(L(1, p, "closed" if first.get(p) == "dialfail" else ("direct" if tr == "quic" else "proxy")))
+        links.append(L(p, 1, "direct" if tr == "quic" else "proxy"))
     timeout = rnd.choice([300, 400, 600])
     steps = []
-    for x in h:
+    for hi, x in enumerate(h):
         a = x["a"]
         if a == "issue":
             r = x["r"]
@@ -322,22 +383,29 @@ def from_hist(h, rnd, sid):
         elif a == "close":
             p = x["p"]
             t = rnd.choice([0, 2, 20, 100])
+            if tr == "quic":
+                # no proxy under QUIC: the connection is lost by dropping the remote node, which only fits
+                # when the behaviour does not use that peer afterwards
+                later = h[hi + 1:]
+                if not any(y.get("p") == p and y["a"] in ("issue", "connect", "dialok") for y in later):
+                    steps.append({"a": "kill", "t": t, "o": p})
+                continue
             steps.append({"a": "cut", "t": t, "from": 1, "to": p, "dir": "up", "after": 0})
             steps.append({"a": "cut", "t": 0, "from": p, "to": 1, "dir": "up", "after": 0})
     if not any(s["a"] == "burst" for s in steps):
         return None
-    return dict(id=sid, seed=rnd.randrange(1 << 30), src="tlc", timeout_ms=timeout, conn_ms=1000, sub_ms=1000, max_size=1024,
+    return dict(id=sid, seed=rnd.randrange(1 << 30), src="tlc", transport=tr, timeout_ms=timeout, conn_ms=1000, sub_ms=1000, max_size=1024,
                 perturb=rnd.choice([0, 1, 2, 3]), nodes=nodes, links=links, steps=steps,
                 epilogue=rnd.choice(["", "kill"]), linger_ms=150)
 
 
-def tlc_scenarios(behs, seed, limit, first_id=300000):
-    rnd = random.Random(seed)
+def tlc_scenarios(behs, seed, limit, first_id=300000, tr="tcp"):
+    rnd = random.Random(seed * 7 + {"tcp": 0, "ws": 1, "quic": 2}[tr])
     seen, out = set(), []
     order = list(range(len(behs)))
     rnd.shuffle(order)
     for i in order:
-        sc = from_hist(behs[i]["h"], rnd, first_id + len(out))
+        sc = from_hist(behs[i]["h"], rnd, first_id + len(out), tr)
         if sc is None:
             continue
         key = json.dumps([[(s["a"], s.get("o"), s.get("from"), s.get("to"), s.get("k"),
